@@ -31,8 +31,18 @@ var retrySolvers = []solverSpec{
 	}},
 }
 
+// first stage: two cheap attempts with a short limit decide most obligations without loading all cores
+var quickSolvers = []solverSpec{
+	{"z3", func(f string, t int) []string { return []string{"z3", fmt.Sprintf("-T:%d", t), f} }},
+	{"z3-new", func(f string, t int) []string { return []string{"z3-new", fmt.Sprintf("-T:%d", t), f} }},
+}
+
 var solvers = []solverSpec{
 	{"z3-new", func(f string, t int) []string { return []string{"z3-new", fmt.Sprintf("-T:%d", t), f} }},
+	{"z3-new/arith2", func(f string, t int) []string {
+		// the older simplex core: decides several store-chain goals at once on which the default core times out
+		return []string{"z3-new", fmt.Sprintf("-T:%d", t), "smt.arith.solver=2", f}
+	}},
 	{"z3", func(f string, t int) []string { return []string{"z3", fmt.Sprintf("-T:%d", t), f} }},
 	{"cvc5", func(f string, t int) []string {
 		return []string{"cvc5", "--lang=smt2", fmt.Sprintf("--tlimit=%d", t*1000), "--produce-models", f}
@@ -262,7 +272,15 @@ func (eng *Engine) solveAll(outDir string, timeoutS int, workers int) {
 			if o.Canary {
 				to = 2
 			}
-			r := raceSolvers(o.File, to, nil)
+			r := solveResult{res: "unknown"}
+			if !o.Canary {
+				r = raceSolversWith(quickSolvers, o.File, 2, nil)
+			}
+			if r.res != "unsat" && r.res != "sat" {
+				t1 := r.secs
+				r = raceSolvers(o.File, to, nil)
+				r.secs += t1
+			}
 			o.Result, o.Solver, o.Time, o.Raw = r.res, r.solver, r.secs, r.out
 			if r.res == "sat" {
 				o.Model = parseModel(r.out, o.Inputs)
